@@ -656,6 +656,11 @@ func (f *MemFile) Write(b []byte) (n int, err error) {
 
 	nd.mu.Lock()
 
+	if f.openMode&avfs.OpenAppend != 0 {
+		// In append mode, each write is done at the current end of the file.
+		f.at = int64(len(nd.data))
+	}
+
 	gap := f.at - int64(len(nd.data))
 	if gap > 0 {
 		// The offset is beyond the end of the file : the gap is filled with zeros.
